@@ -23,7 +23,6 @@ use std::fmt;
 use std::iter;
 use std::mem;
 use std::ops::*;
-use std::ptr;
 
 use structure::*;
 
@@ -580,14 +579,18 @@ impl<S: BaseFloat> Matrix for Matrix2<S> {
 
     #[inline]
     fn swap_columns(&mut self, a: usize, b: usize) {
-        unsafe { ptr::swap(&mut self[a], &mut self[b]) };
+        let tmp = self[a];
+        self[a] = self[b];
+        self[b] = tmp;
     }
 
     #[inline]
     fn swap_elements(&mut self, a: (usize, usize), b: (usize, usize)) {
         let (ac, ar) = a;
         let (bc, br) = b;
-        unsafe { ptr::swap(&mut self[ac][ar], &mut self[bc][br]) };
+        let tmp = self[ac][ar];
+        self[ac][ar] = self[bc][br];
+        self[bc][br] = tmp;
     }
 
     fn transpose(&self) -> Matrix2<S> {
@@ -679,14 +682,18 @@ impl<S: BaseFloat> Matrix for Matrix3<S> {
 
     #[inline]
     fn swap_columns(&mut self, a: usize, b: usize) {
-        unsafe { ptr::swap(&mut self[a], &mut self[b]) };
+        let tmp = self[a];
+        self[a] = self[b];
+        self[b] = tmp;
     }
 
     #[inline]
     fn swap_elements(&mut self, a: (usize, usize), b: (usize, usize)) {
         let (ac, ar) = a;
         let (bc, br) = b;
-        unsafe { ptr::swap(&mut self[ac][ar], &mut self[bc][br]) };
+        let tmp = self[ac][ar];
+        self[ac][ar] = self[bc][br];
+        self[bc][br] = tmp;
     }
 
     fn transpose(&self) -> Matrix3<S> {
@@ -795,14 +802,18 @@ impl<S: BaseFloat> Matrix for Matrix4<S> {
 
     #[inline]
     fn swap_columns(&mut self, a: usize, b: usize) {
-        unsafe { ptr::swap(&mut self[a], &mut self[b]) };
+        let tmp = self[a];
+        self[a] = self[b];
+        self[b] = tmp;
     }
 
     #[inline]
     fn swap_elements(&mut self, a: (usize, usize), b: (usize, usize)) {
         let (ac, ar) = a;
         let (bc, br) = b;
-        unsafe { ptr::swap(&mut self[ac][ar], &mut self[bc][br]) };
+        let tmp = self[ac][ar];
+        self[ac][ar] = self[bc][br];
+        self[bc][br] = tmp;
     }
 
     fn transpose(&self) -> Matrix4<S> {
